@@ -6,6 +6,7 @@ import (
 	"bytes"
 	"encoding/json"
 	"fmt"
+	"regexp"
 	"runtime"
 	"runtime/debug"
 	"strings"
@@ -61,8 +62,16 @@ func allocBytes() uint64 {
 	return m.TotalAlloc
 }
 
+// declaresBig: some header of the input declares a length of 8+ digits. Such a length may be within the limit (512 MiB) and
+// then legitimately makes the decoder allocate that much; the memory is handed back right after the case so that the
+// 16 concurrent shards do not keep gigabytes of garbage resident.
+var bigDecl = regexp.MustCompile(`[$*][0-9]{8,}`)
+
 func checkDecode(c bytesCase) *verdict {
 	data := c.bytes()
+	if bigDecl.Match(data) {
+		defer debug.FreeOSMemory()
+	}
 	before := uint64(0)
 	// an over-limit or negative declared length must be rejected without allocating for it; lengths within
 	// the declared limits (1048576 elements, 512 MiB) may allocate up to the limit and are not judged here
